@@ -1015,9 +1015,31 @@ func main() {
 	}
 	fmt.Fprintf(&o, "Definition default_replies_once : bool := %s.\n", b(defTagged(hc, "cmd") && funcs["uid.HandleUID"] != nil && defTagged(funcs["uid.HandleUID"], "subCmd")))
 	fmt.Fprintf(&o, "Definition select_clears_first : bool := %s.\n", b(selectClearsFirst()))
+	// the `len(parts) < 2` branch of handleClient answers with a tagged reply built from parts[0]
+	shortTagged := false
+	ast.Inspect(hc.decl.Body, func(n ast.Node) bool {
+		is, ok := n.(*ast.IfStmt)
+		if !ok || src(is.Cond) != "len(parts) < 2" {
+			return true
+		}
+		cnt := 0
+		ast.Inspect(is.Body, func(m ast.Node) bool {
+			if ce, ok := m.(*ast.CallExpr); ok && strings.HasSuffix(src(ce.Fun), "endResponse") && len(ce.Args) == 2 {
+				if in, ok := ce.Args[1].(*ast.CallExpr); ok && src(in.Fun) == "fmt.Sprintf" && len(in.Args) >= 2 {
+					if lit, ok := in.Args[0].(*ast.BasicLit); ok && strings.HasPrefix(lit.Value, "\"%s ") && src(in.Args[1]) == "parts[0]" {
+						cnt++
+					}
+				}
+			}
+			return true
+		})
+		shortTagged = cnt == 1
+		return false
+	})
+	fmt.Fprintf(&o, "Definition short_line_tagged : bool := %s.\n", b(shortTagged))
 	raa := refusalAfterAuth()
 	fmt.Fprintf(&o, "(* tagged NO/BAD reachable after state.Authenticated := true: %v *)\n", raa)
 	fmt.Fprintf(&o, "Definition auth_is_final : bool := %s.\n", b(len(raa) == 0))
-	fmt.Fprintf(&o, "Definition table : facts := mk_facts dispatch sites replies default_replies_once select_clears_first auth_is_final.\n")
+	fmt.Fprintf(&o, "Definition table : facts := mk_facts dispatch sites replies default_replies_once select_clears_first auth_is_final short_line_tagged.\n")
 	os.Stdout.Write(o.Bytes())
 }
